@@ -351,8 +351,10 @@ def run_k3(tier, seed, shapes=None, per_shape=None, tag="all"):
     surv_cases = []
     for i in idx:
         f = fields(cases[i])
+        # the survivors of the chain: the sequential value of collect_vec
+        seq_ops = ";".join("N:1" if o.startswith("N:") else o for o in f["ops"].split(";"))
         surv_cases.append("id=%s shape=%s known=%s in=%s ops=%s term=cv avail=%s sched=- fuel=100000" % (
-            f["id"], f["shape"], f["known"], f["in"], f["ops"], f["avail"]) + carry(f))
+            f["id"], f["shape"], f["known"], f["in"], seq_ops, f["avail"]) + carry(f))
     rc4, surv, err4 = parallel_run(DRIVER, ["k3"], surv_cases, shards=16)
     survivors = {}
     for i, line in zip(idx, surv):
